@@ -1062,6 +1062,8 @@ func c01Generate(r *rand.Rand, class string) c01In {
 		in.H.Tamper = c01Tampers[r.Intn(len(c01Tampers))]
 	case "allowance":
 		in.H.Allow = false
+	case "raw-v": // accepted path with a bid signature whose recovery id is spelled 0/1 (VerifyBid accepts both)
+		in.H.Tamper = "v0"
 	case "concurrent-store":
 		in.Engine = "concurrent-store"
 		k := 1 + r.Intn(2)
@@ -1213,10 +1215,10 @@ func c01Main(t *testing.T, classes []string, reps int, timed int, e2e int) {
 }
 
 func TestVerifC01(t *testing.T) {
-	c01Main(t, []string{"accepted", "role", "tamper", "tamper", "allowance", "peer-funded", "signer-funded", "format", "format", "read", "engine", "engine",
+	c01Main(t, []string{"accepted", "raw-v", "role", "tamper", "tamper", "allowance", "peer-funded", "signer-funded", "format", "format", "read", "engine", "engine",
 		"engine", "store", "write", "signer", "concurrent-store", "matrix", "matrix", "matrix"}, 1, map[bool]int{true: 4, false: 1}[os.Getenv("VERIF_TIER") == "thorough"], 3)
 }
 
 func TestVerifC07(t *testing.T) {
-	c01Main(t, []string{"accepted", "accepted", "concurrent-store", "concurrent-store", "store", "write", "engine", "matrix"}, 2, 0, 1)
+	c01Main(t, []string{"accepted", "accepted", "raw-v", "raw-v", "concurrent-store", "concurrent-store", "store", "write", "engine", "matrix"}, 2, 0, 1)
 }
